@@ -8,17 +8,29 @@ CONFIG = dict(
                 "'too far ahead' boundary) over DAGs of 2-10 events are enqueued (some from their own goroutines) into a started "
                 "processor; CheckParentless only stores the closure and the driver fires the closures in a drawn order, "
                 "first interleaved with the Enqueue calls and then from 1-3 goroutines, with drawn check/process failures, "
-                "semaphore capacity classes and buffer limit classes. Safety clauses are checked on the logged callback order."),
+                "semaphore capacity classes and buffer limit classes. The highest known Lamport is constant, follows the processed "
+                "events upwards, or follows a drawn schedule that also DECREASES (epoch switch: changes right before the Enqueue "
+                "call of a batch or between two firings, drops by more/less than the buffer limit, rises). In a third of the cases "
+                "Stop() overlaps the handling of the last batch: that batch (1-3 events, mostly ending with an event whose parent "
+                "is never supplied) is enqueued after every other done, all its check closures are fired, the inserter is held "
+                "inside the HighestLamport call for the copy handled last, Stop() is started from its own goroutine, and only then "
+                "the inserter continues (the batch finishes, its done fires, Stop returns). "
+                "Safety clauses are checked on the logged callback order."),
     level_note=NOTE_COMMON + (" Timing policy: the only real-time waits (arrival of a stored closure, return of Enqueue, the done "
                               "callbacks) have a 60 s deadline and make the case inconclusive, never a violation; whether an Enqueue "
                               "is accepted when the semaphore is short depends on timing and the oracle accepts both outcomes."),
     rule=("Evaluation = one generated case run against a fresh processor. Oracle: every copy of an accepted batch (Enqueue "
-          "returned nil) is reported released exactly once by the end of Stop (never twice), with its batch's peer; "
+          "returned nil) whose done was called is reported released exactly once by the time Stop has returned (never twice), "
+          "with its batch's peer - also when Stop() was started while the last check result of the last batch was still being "
+          "handled (every event of that batch went through the processor's handling and its done fired, so it is a finished "
+          "batch); "
           "DataSemaphore.Processing() <= capacity inside every callback and == 0 after Stop, the semaphore's inconsistency "
           "warning never fires; copies of an ordered batch reach the ordering buffer in batch order (first ID() call on the "
-          "copy's wrapper, and first Exists query per event for events with a single copy); Process is never called for an event "
-          "with Lamport > highest known (at that moment) + EventsBufferLimit.Num + 1, and a copy that passed its check and is "
-          "not that far ahead of the initial highest Lamport reaches the buffer; Process only when all parents are connected, "
+          "copy's wrapper, and first Exists query per event for events with a single copy); Process is never called for a copy "
+          "with Lamport > h + EventsBufferLimit.Num + 1 for EVERY value h the highest known Lamport had between the Enqueue call "
+          "of the copy's batch and that Process call (without decreases: the value at that moment), and a copy that passed its "
+          "check and has Lamport <= m + EventsBufferLimit.Num + 1, m = the minimum value the highest known Lamport had between "
+          "the Enqueue call and the done of its batch, reaches the buffer; Process only when all parents are connected, "
           "per copy at most once, never after its Released, never for a copy rejected by its parentless check; in clean runs "
           "(nothing fails, nothing refused, ample limits, constant highest Lamport) exactly the supplied events that are not too "
           "far ahead and whose ancestry is supplied and not too far ahead are processed, each exactly once, before the last done. "
@@ -26,7 +38,12 @@ CONFIG = dict(
           "an event too far ahead. Distinct by hash of the whole case description."),
     assumptions=[
         "'accepted' = Enqueue returned nil (ErrBusy when the events semaphore cannot be acquired in time)",
-        "the highest known Lamport time is what the harness-owned HighestLamport callback returns (constant, or the maximum over processed events); it never decreases",
+        "the highest known Lamport time is what the harness-owned HighestLamport callback returns (constant, the maximum over processed events, or a drawn schedule that may decrease); "
+        "when it changes while a batch is in flight the processor may have seen any value of the window [Enqueue call of the batch, observation]: the 'never processed' clause is asserted "
+        "against the maximum of that window (the event may have been admitted to the buffer under an older, higher value), the 'reaches the buffer' clause against its minimum",
+        "'finished handling' = the batch's done callback was called after every event of the batch went through the processor's handling; a Stop() that begins before the inserter has "
+        "taken every check result of a batch cancels that batch (done fires, unhandled events are never released - 'Stop interrupts the processor, canceling all the pending operations'): "
+        "such cancelled batches are outside the property and are not generated; the overlap class starts Stop() only when the inserter already holds the last check result of the batch",
         "an event is connected exactly when the harness-owned Exists/Get say so (Process returned nil)",
         "Lamport arithmetic of the rule does not overflow (highest and the buffer limit stay far below 2^31)",
         "MaxTasks is at least the number of batches (otherwise Enqueue itself blocks on the task queue until the checks complete)",
